@@ -80,6 +80,15 @@ CLAIMED = {
         'F-18 (errc in maildir_set_path aborts the run) is not exercised by this check.',
    technique='Coq proof (fold invariants) + differential population runs + fault enumeration in stdin mode',
    ref='DESIGN 6 C04'),
+ 'C05': dict(
+   text='The Coq part is structural: in the model of main() the dry-run pipeline is the real pipeline without its last (only mutating) stage, and -n examines no '
+        'message. The deciding evidence is the tie: interposer traces and full sandbox snapshots (names, sizes, hashes, mtimes incl. TMPDIR) of -d and -n runs over '
+        'generated rule trees and special configurations (failing destinations, invalid back-references, command conditions, exec stdin/body, attachment blocks), in '
+        'maildir and stdin mode, also with an unwritable stdout and on a file system that reports no file types: no mutating call, no exec-action fork, nothing changed.',
+   note='This property is a statement about which calls are issued; the theorem is only as strong as the model of main() (by construction), so the claim rests mostly '
+        'on the trace tie. Trusted: shim, snapshotting.',
+   technique='Coq proof (structural) + interposed trace and snapshot comparison over generated configurations',
+   ref='DESIGN 6 C05'),
 }
 
 ALL = ['C%02d' % i for i in range(1, 19)]
